@@ -8,12 +8,12 @@ TYPEERR = {"InvalidArgumentTypeException": "BADPRE(pre)"}
 
 C[P + "_to_pregex"] = dict(
     params={"pre": "pre"}, raises=TYPEERR,
-    ensures="(result is pre) if PREGEX(pre) else (SAME_TEXT(TEXT(result), ESC(pre)) and IMPLIES(pre == '', EMPTY(result)))",
+    ensures="SAME_TEXT(TEXT(result), TEXT(pre)) if PREGEX(pre) else (SAME_TEXT(TEXT(result), ESC(pre)) and IMPLIES(pre == '', EMPTY(result)))",
     returns="to_pregex", frame=[])
 
 C[P + "concat"] = dict(
     params={"self": "self", "pre": "pre", "on_right": "bool"}, raises=TYPEERR,
-    ensures="SAME_TREE(TEXT(result), REF_CONCAT(self, pre, on_right)) and IMPLIES(ISEMPTY(pre), result is self)",
+    ensures="SAME_TREE(TEXT(result), REF_CONCAT(self, pre, on_right)) and IMPLIES(ISEMPTY(pre), SAME_TEXT(TEXT(result), TEXT(self)))",
     returns="pregex", ref="REF_CONCAT(self, pre, on_right)", returns_self_if="ISEMPTY(pre)", frame=[])
 
 C[P + "either"] = dict(
@@ -65,7 +65,7 @@ for name, (before, after, negative, behind) in LOOK.items():
     if negative:
         c.update(ensures=ens, ref=ref)
     else:
-        c.update(ensures=f"(result is self) if ISEMPTY(pre) else {ens}", ref=f"OT(self) if ISEMPTY(pre) else {ref}",
+        c.update(ensures=f"(SAME_TEXT(TEXT(result), TEXT(self))) if ISEMPTY(pre) else {ens}", ref=f"OT(self) if ISEMPTY(pre) else {ref}",
                  returns_self_if="ISEMPTY(pre)")
     C[P + name] = c
 
